@@ -415,7 +415,22 @@ class Ctx:
         return self.tier == "thorough"
 
     def uid(self, suffix=""):
-        return "%s%s" % (self.pid, suffix)
+        # per-process names: two runs of the same check at the same time must not share
+        # trace / overlay / cases files
+        return "%s_p%d%s" % (self.pid, os.getpid(), suffix)
+
+    def _cleanup_scratch(self):
+        """remove this run's per-process scratch files (kept when a violation was reported,
+        for debugging)"""
+        pat = "%s_p%d" % (self.pid, os.getpid())
+        for path in glob.glob(os.path.join(BUILD, "trace_%s*.jsonl" % pat)) + \
+                glob.glob(os.path.join(BUILD, "coq_eval", "*%s*" % pat)):
+            try:
+                os.remove(path)
+            except OSError:
+                pass
+        for d in glob.glob(os.path.join(BUILD, "overlay", "%s*" % pat)):
+            shutil.rmtree(d, ignore_errors=True)
 
     # -- reporting ---------------------------------------------------------
     def violation(self, kind, name, detail, signature=None, failing_input=True):
@@ -530,6 +545,7 @@ class Ctx:
             json.dump(ev, f, indent=1, default=str)
         if self.violations:
             return 1
+        self._cleanup_scratch()
         log("OK property=%s tier=%s seed=%d wall=%.1fs" %
             (self.pid, self.tier, self.seed, time.time() - self.t0))
         return 0
